@@ -238,6 +238,10 @@ pub fn mutate(r: &mut Rng, text: &str) -> String {
                     toks.insert(j, ")".repeat(d));
                 }
             }
+            7 if r.chance(1, 3) => {
+                // identifiers with a huge numeric suffix (fresh-name arithmetic on V<k>, X<k>, N<k>)
+                toks[i] = ["V18446744073709551615", "X18446744073709551615", "N9223372036854775807", "Z18446744073709551616", "I18446744073709551615", "V0", "V00", "X01"][r.upto(8)].to_string();
+            }
             7 => toks[i] = ["#true", "#false", "#inf", "#sup", "#infimum", "X$", "X$i", "x$g", "N$s", "_", "_X", "_a", "a__b", "$i", "input", "output", "assumption", "spec", "lemma", "definition", "inductive-lemma", "universal", "forward"][r.upto(23)].to_string(),
             8 => {
                 // huge arity
@@ -272,6 +276,12 @@ fn gen_input(r: &mut Rng, corpus: &[(Kind, String)]) -> (Kind, String) {
         4 => {
             let p = (0..(1 + r.upto(3))).map(|_| gen_flat_rule(r)).collect::<Vec<_>>().join("\n");
             (Kind::Program, if r.chance(1, 2) { mutate(r, &p) } else { p })
+        }
+        5 if r.chance(1, 2) => {
+            // the simplifier's redex templates (shapes on which rewrites fire)
+            let n = 1 + r.upto(2);
+            let t = (0..n).map(|_| format!("{}.", crate::kit::redex::gen_redex(r).0)).collect::<Vec<_>>().join("\n");
+            (Kind::Theory, t)
         }
         5 | 6 => {
             let n = 1 + r.upto(2);
